@@ -360,14 +360,15 @@ func mkBlinded(slot, salt uint64) *apiv1capella.BlindedBeaconBlock {
 // ---------------------------------------------------------------- the driver
 
 type H struct {
-	run   *hx.Run
-	w     *world
-	cs    *caseState
-	salt  uint64
-	rng   *hx.Rng
-	spe   uint64
-	cur   string // the op line being executed
-	hangs int
+	run      *hx.Run
+	w        *world
+	cs       *caseState
+	salt     uint64
+	rng      *hx.Rng
+	spe      uint64
+	cur      string // the op line being executed
+	hangs    int
+	sigCount map[string]int
 }
 
 // each hang costs a timeout and an abandoned signer; after this many the concurrent requests stop
@@ -401,6 +402,11 @@ func (h *H) epoch() uint64 { return h.clock() / h.spe }
 
 // violate records an oracle violation with the case's op lines up to and including the current one
 func (h *H) violate(sig, detail string) {
+	h.sigCount[sig]++
+	h.run.Tag("oracle:" + sig)
+	if h.sigCount[sig] > 3 { // keep room in the (capped) violation list for other cause signatures
+		return
+	}
 	h.run.Violate(sig, detail, append(append([]string(nil), h.cs.lines...), h.cur)...)
 }
 
@@ -975,7 +981,7 @@ func main() {
 	run := hx.Start()
 	defer run.Finish()
 	threshold.Init()
-	h := &H{run: run, rng: hx.NewRng(run.Seed)}
+	h := &H{run: run, rng: hx.NewRng(run.Seed), sigCount: map[string]int{}}
 	h.w = newWorld()
 	defer func() { h.w.destroy(true) }()
 	h.spe = h.w.net.SlotsPerEpoch()
